@@ -508,6 +508,95 @@ func TestVerifC14(t *testing.T) { //nolint:cyclop,maintidx
 			r.distinct(fmt.Sprintf("tcpconn/%s/n%d/max%d", kind, len(pkts)/4, vfC14MaxBucket(lens)))
 		}
 
+		// (D2) hostile streams through tcpPacketConn: what the reference deframer accepts (receive MTU 8192) is delivered in
+		// order, and at the first oversized / truncated frame the stream ends with an error - never another packet
+		nD2 := e.n(3000, 100000)
+		for i := 0; i < nD2; i++ {
+			rng := e.rng(i, "tcppacketconn-hostile")
+			pk := vfC14Packets(rng, 3000)
+			stream, _ := vfC14Frame(pk)
+			mode := rng.IntN(4)
+			switch mode {
+			case 0: // an oversized frame whose body is itself a sequence of well-formed small frames
+				inner, _ := vfC14Frame([][]byte{[]byte("forged-1"), []byte("forged-2"), bytes.Repeat([]byte{0xEE}, 300)})
+				body := append([]byte{}, inner...)
+				for len(body) < 8193+rng.IntN(2000) {
+					body = append(body, inner...)
+				}
+				var h [2]byte
+				binary.BigEndian.PutUint16(h[:], uint16(len(body))) //nolint:gosec
+				stream = append(append(stream, h[:]...), body...)
+			case 1: // huge declared length, then frames
+				var h [2]byte
+				binary.BigEndian.PutUint16(h[:], uint16(8193+rng.IntN(57000))) //nolint:gosec
+				tail, _ := vfC14Frame(vfC14Packets(rng, 200))
+				stream = append(append(stream, h[:]...), tail...)
+			case 2: // random garbage after the valid frames
+				g := make([]byte, rng.IntN(4000))
+				for j := range g {
+					g[j] = byte(rng.IntN(256))
+				}
+				stream = append(stream, g...)
+			default: // truncated
+				if len(stream) > 0 {
+					stream = stream[:rng.IntN(len(stream))]
+				}
+			}
+			// reference deframer with the receive MTU as the buffer size
+			var want [][]byte
+			for pos := 0; len(stream)-pos >= 2; {
+				l := int(binary.BigEndian.Uint16(stream[pos:]))
+				if l > 8192 || len(stream)-pos-2 < l {
+					break
+				}
+				want = append(want, stream[pos+2:pos+2+l])
+				pos += 2 + l
+			}
+			chunks, kind := vfC14Partition(rng, len(stream))
+			cc := &vfChunkConn{stream: stream, chunks: chunks, remote: &net.TCPAddr{IP: net.IPv4(10, 9, byte(rng.IntN(250)), 4), Port: 1000 + rng.IntN(60000)}}
+			tp := newTCPPacketConn(tcpPacketParams{ReadBuffer: rng.IntN(8), LocalAddr: &net.TCPAddr{IP: net.IPv4(10, 0, 0, 1), Port: 7000}, Logger: vfQuietLogger().NewLogger("ice")})
+			if err := tp.AddConn(cc, nil); err != nil {
+				r.violation("harness:addconn", err.Error(), nil)
+
+				continue
+			}
+			wit := map[string]any{"idx": i, "mode": mode, "partition": kind, "valid_frames_before_the_bad_one": len(want)}
+			for k := 0; k <= len(want)+2; k++ {
+				buf := make([]byte, 8192)
+				type res struct {
+					n   int
+					err error
+				}
+				ch := make(chan res, 1)
+				go func() { n, _, err := tp.ReadFrom(buf); ch <- res{n, err} }()
+				var got res
+				select {
+				case got = <-ch:
+				case <-time.After(10 * time.Second):
+					got = res{0, errors.New("harness: ReadFrom did not return")}
+					_ = tp.Close()
+					<-ch
+				}
+				if k < len(want) {
+					if got.err != nil || !bytes.Equal(buf[:got.n], want[k]) {
+						r.violation("tcpconn-hostile-sequence", fmt.Sprintf("frame %d of %d valid ones (len %d): n=%d err=%v", k, len(want), len(want[k]), got.n, got.err), wit)
+
+						break
+					}
+
+					continue
+				}
+				if got.err == nil {
+					r.violation("tcpconn-hostile-fabricated", fmt.Sprintf("after the %d valid frames the stream carries an oversized / truncated frame, but ReadFrom returned another packet of %d bytes (%q...)", len(want), got.n, string(buf[:min(got.n, 12)])), wit)
+				}
+
+				break
+			}
+			_ = tp.Close()
+			r.eval(1)
+			r.distinct(fmt.Sprintf("tcpconn-hostile/%d/%s/valid%d", mode, kind, len(want)/4))
+		}
+
 		// (F) concurrent senders on one TCP connection: frames must not interleave on the wire
 		nF := e.n(400, 20000)
 		for i := 0; i < nF; i++ {
